@@ -2,6 +2,8 @@ SPECIFICATION Spec
 CONSTANTS
   Fams <- MutantFams
   D_SwapDelete = TRUE
+  M_RemovePerSelector = TRUE
+  ScanT = 1
   M_NamesComparedWhole = FALSE
   NameW = 5
   M_BuffersPerInstance = TRUE
